@@ -590,7 +590,7 @@ def c07(rng, count):
         recs = []
         for _ in range(rng.randint(0, 3)):
             k = rng.choice([0, 1, 1, 2, 3, 4, 6])
-            recs.append("".join(rng.choice(pool) for _ in range(k)).replace(eol, ""))
+            recs.append("".join((rand_scalar(rng) if rng.random() < 0.3 else rng.choice(pool)) for _ in range(k)).replace(eol, ""))
         data = eol.join(recs) + (eol if recs and rng.random() < 0.7 else "")
         out.append(Case(argv, data.encode()))
     return out
